@@ -372,6 +372,12 @@ func RandGBRecord(r *rand.Rand, seqLen int, maxFeatures int, maxText int) *GBRec
 		// construct names as plasmid editors export them: name and length together do not fit columns 13-40
 		rec.Name = strings.ToLower(RandWordAlnum(r, 6+r.Intn(8))) + []string{"-", "_", "."}[r.Intn(3)] + strings.ToLower(RandWordAlnum(r, 12+r.Intn(20)))
 	}
+	if r.Intn(25) == 0 {
+		// a locus named after the file or the gene: the name is, or holds as a word of its own, the (lower-case)
+		// spelling of a molecule type
+		word := []string{"dna", "mrna", "trna", "rrna", "rna"}[r.Intn(5)]
+		rec.Name = []string{word, word + "-" + strings.ToLower(RandWordAlnum(r, 3)), strings.ToLower(RandWordAlnum(r, 4)) + "." + word, word + ".1"}[r.Intn(4)]
+	}
 	rec.MolType = gbMolTypes[r.Intn(len(gbMolTypes))]
 	rec.Topology = []string{"linear", "circular", ""}[r.Intn(3)]
 	rec.Division = gbDivisions[r.Intn(len(gbDivisions))]
